@@ -13,6 +13,7 @@ mod c04;
 mod c15;
 mod api;
 mod c03;
+mod c03m7;
 mod routes;
 mod routes_gen;
 mod c02;
